@@ -9,10 +9,11 @@ C33 — the registries a schema change touches, as the DDL executors update them
             `DropTableExecutor` update together)
 
 Names are the normalised ones (the parser upper-cases unquoted identifiers; a quoted name is a
-different name).  As coded: ALTER TABLE ADD / DROP COLUMN (`alter/columns.rs`) rewrites the
-stored table's schema copy and its rows only — neither the catalog entry nor the indexes on a
-dropped column are touched; INSERT validates the column count against the catalog and then
-`Table::insert` validates it against the stored schema.
+different name).  ALTER TABLE ADD / DROP COLUMN (`alter/columns.rs` + `propagate_column_change` in
+`alter/mod.rs`, fix ecda3d9a): the stored table's schema copy and rows are rewritten, the
+catalog entry is replaced by the stored schema, and indexes naming a dropped column are dropped
+(before the fix only the stored table changed).  INSERT validates the column count against the
+catalog and then `Table::insert` validates it against the stored schema.
 -/
 namespace VibeProof.Ddl
 open VibeProof
@@ -65,13 +66,25 @@ def updStored (s : DState) (n : String) (f : STable → STable) : DState :=
 def pushRow (r : Row) (t : STable) : STable :=
   if r.length = t.cols.length then { t with rows := t.rows ++ [r] } else t
 
+def colsAdd (c : String) (cols : List String) : List String := cols ++ [c]
+
+def colsDrop (c : String) (cols : List String) : List String :=
+  match cols.idxOf? c with
+  | some k => cols.eraseIdx k
+  | none => cols
+
 def addCol (c : String) (t : STable) : STable :=
-  { cols := t.cols ++ [c], rows := t.rows.map (fun r => r ++ [Value.null]) }
+  { cols := colsAdd c t.cols, rows := t.rows.map (fun r => r ++ [Value.null]) }
 
 def dropCol (c : String) (t : STable) : STable :=
-  match t.cols.idxOf? c with
-  | some k => { cols := t.cols.eraseIdx k, rows := t.rows.map (fun r => r.eraseIdx k) }
-  | none => t
+  { cols := colsDrop c t.cols
+    rows := match t.cols.idxOf? c with
+      | some k => t.rows.map (fun r => r.eraseIdx k)
+      | none => t.rows }
+
+/-- `Catalog::update_table_schema`: the catalog entry of `n` follows the stored schema -/
+def updCatalog (s : DState) (n : String) (g : List String → List String) : DState :=
+  { s with catalog := s.catalog.map (fun e => if e.1 = n then (e.1, g e.2) else e) }
 
 def step (s : DState) : DOp → DState × Option DErr
   | .createTable n cols =>
@@ -111,19 +124,32 @@ def step (s : DState) : DOp → DState × Option DErr
     | none => (s, some .tableMissing)
     | some t =>
       if t.cols.contains c then (s, some .columnExists)
-      else (updStored s n (addCol c), none)
+      else (updCatalog (updStored s n (addCol c)) n (colsAdd c), none)
   | .dropColumn n c =>
     match stTable s n with
     | none => (s, some .tableMissing)
     | some t =>
       if t.cols.length ≤ 1 then (s, some .lastColumn)
-      else if t.cols.contains c then (updStored s n (dropCol c), none)
+      else if t.cols.contains c then
+        let s1 := updCatalog (updStored s n (dropCol c)) n (colsDrop c)
+        ({ s1 with reg := s1.reg.filter (fun ix => !(ix.table == n && ix.cols.contains c)) }, none)
       else (s, some .columnMissing)
 
-/-- `Operations::list_indexes_for_table`: the indexes a query on table `n` may use — compared
-after normalising both names with `norm` (`to_uppercase` in the code) -/
+/-- the stored table a name resolves to (`Database::get_table`: as written first, then normalised) -/
+def resolve (norm : String → String) (s : DState) (x : String) : Option String :=
+  if x ∈ s.stored.map (fun e => e.1) then some x
+  else if norm x ∈ s.stored.map (fun e => e.1) then some (norm x)
+  else none
+
+/-- `Database::list_indexes_for_table` (fix 2e2a3d24): the registry compares the names after
+normalising both with `norm` (`to_uppercase`); an index whose table name is spelled differently
+is kept only when both spellings resolve to the same stored table -/
 def indexesFor (norm : String → String) (s : DState) (n : String) : List DIndex :=
-  s.reg.filter (fun ix => norm ix.table == norm n)
+  s.reg.filter (fun ix => norm ix.table == norm n &&
+    (ix.table == n ||
+      match resolve norm s n, resolve norm s ix.table with
+      | some a, some b => a == b
+      | _, _ => true))
 
 def run (s : DState) : List DOp → DState
   | [] => s
